@@ -7,6 +7,7 @@ package an
 import (
 	"fmt"
 	"go/ast"
+	"go/parser"
 	"go/token"
 	"go/types"
 	"os"
@@ -28,8 +29,8 @@ type Prog struct {
 	Jet   *packages.Package
 	Utils *packages.Package
 
-	Fns      []*Fn             // all function bodies (decls and literals) of module packages
-	FnByName map[string]*Fn    // by Name
+	Fns      []*Fn          // all function bodies (decls and literals) of module packages
+	FnByName map[string]*Fn // by Name
 	FnByObj  map[*types.Func]*Fn
 	FnByLit  map[*ast.FuncLit]*Fn
 	FnByBody map[*ast.BlockStmt]*Fn
@@ -346,3 +347,94 @@ func InspectOwn(f *Fn, visit func(ast.Node) bool) {
 		return visit(n)
 	})
 }
+
+// Mutate returns a new Prog in which file rel (relative to the repository root) has the given
+// contents; only the module's own packages are re-parsed and re-type-checked (in dependency
+// order) against the dependencies already loaded for p.  Used by the liveness self-test: nothing
+// is written to disk.
+func (p *Prog) Mutate(rel string, src []byte) (*Prog, error) {
+	target := filepath.Join(p.Dir, rel)
+	fset := token.NewFileSet()
+	q := &Prog{Dir: p.Dir, Fset: fset, ByRel: map[string]*packages.Package{}, FnByName: map[string]*Fn{},
+		FnByObj: map[*types.Func]*Fn{}, FnByLit: map[*ast.FuncLit]*Fn{}, FnByBody: map[*ast.BlockStmt]*Fn{},
+		cfgs: map[*Fn]*cfgEntry{}}
+	done := map[string]*types.Package{}
+	// dependency order among module packages: a package comes after the module packages it imports
+	var order []*packages.Package
+	seen := map[*packages.Package]bool{}
+	inModule := map[string]*packages.Package{}
+	for _, pk := range p.Pkgs {
+		inModule[pk.PkgPath] = pk
+	}
+	var visit func(pk *packages.Package)
+	visit = func(pk *packages.Package) {
+		if seen[pk] {
+			return
+		}
+		seen[pk] = true
+		for path := range pk.Imports {
+			if dep := inModule[path]; dep != nil {
+				visit(dep)
+			}
+		}
+		order = append(order, pk)
+	}
+	for _, pk := range p.Pkgs {
+		visit(pk)
+	}
+	for _, old := range order {
+		var files []*ast.File
+		for _, fn := range old.CompiledGoFiles {
+			var content interface{}
+			if fn == target {
+				content = src
+			}
+			f, err := parser.ParseFile(fset, fn, content, parser.ParseComments)
+			if err != nil {
+				q.TypeErrors = append(q.TypeErrors, err.Error())
+				if f == nil {
+					continue
+				}
+			}
+			files = append(files, f)
+		}
+		info := &types.Info{
+			Types: map[ast.Expr]types.TypeAndValue{}, Defs: map[*ast.Ident]types.Object{}, Uses: map[*ast.Ident]types.Object{},
+			Implicits: map[ast.Node]types.Object{}, Selections: map[*ast.SelectorExpr]*types.Selection{}, Scopes: map[ast.Node]*types.Scope{},
+			Instances: map[*ast.Ident]types.Instance{},
+		}
+		oldPk := old
+		conf := types.Config{
+			Importer: importerFunc(func(path string) (*types.Package, error) {
+				if t, ok := done[path]; ok {
+					return t, nil
+				}
+				if dep, ok := oldPk.Imports[path]; ok && dep.Types != nil {
+					return dep.Types, nil
+				}
+				return nil, fmt.Errorf("import %q not loaded", path)
+			}),
+			Error: func(err error) { q.TypeErrors = append(q.TypeErrors, err.Error()) },
+			Sizes: old.TypesSizes,
+		}
+		tpkg, _ := conf.Check(old.PkgPath, fset, files, info)
+		done[old.PkgPath] = tpkg
+		npk := &packages.Package{ID: old.ID, Name: old.Name, PkgPath: old.PkgPath, GoFiles: old.GoFiles, CompiledGoFiles: old.CompiledGoFiles,
+			Imports: old.Imports, Types: tpkg, Fset: fset, Syntax: files, TypesInfo: info, TypesSizes: old.TypesSizes, Module: old.Module}
+		q.Pkgs = append(q.Pkgs, npk)
+		rel := strings.TrimPrefix(strings.TrimPrefix(old.PkgPath, JetPath), "/")
+		q.ByRel[rel] = npk
+	}
+	sort.Slice(q.Pkgs, func(i, j int) bool { return q.Pkgs[i].PkgPath < q.Pkgs[j].PkgPath })
+	q.Jet = q.ByRel[""]
+	q.Utils = q.ByRel["utils"]
+	if q.Jet == nil || q.Jet.Types == nil {
+		return nil, fmt.Errorf("re-check failed")
+	}
+	q.indexFns()
+	return q, nil
+}
+
+type importerFunc func(path string) (*types.Package, error)
+
+func (f importerFunc) Import(path string) (*types.Package, error) { return f(path) }
